@@ -173,10 +173,29 @@ namespace
 	{
 		return right;
 	}
+	// n x k: at least one row, every row an array of the same, non-zero number of scalars
+	bool is_matrix(const std::shared_ptr<d_array>& arr)
+	{
+		if (arr->size() == 0 || !arr->at(0).is<t_array>() || arr->at(0).data<d_array>()->size() == 0) { return false; }
+		auto cols = arr->at(0).data<d_array>()->size();
+		for (size_t i = 0; i < arr->size(); i++)
+		{
+			if (!arr->at(i).is<t_array>() || arr->at(i).data<d_array>()->size() != cols) { return false; }
+			auto row = arr->at(i).data<d_array>();
+			for (size_t j = 0; j < cols; j++)
+			{
+				if (!row->at(j).is<t_scalar>()) { return false; }
+			}
+		}
+		return true;
+	}
 	value matrixmultiply_array_array(runtime& runtime, value::cref left, value::cref right)
 	{
 		auto l = left.data<d_array>();
 		auto r = right.data<d_array>();
+		if (!is_matrix(l) || !is_matrix(r)) {
+			return std::make_shared<d_array>();
+		}
 
 		// Check that neither rows nor first col is empty
 		if (l->size() == 0 || l->at(0).type() != t_array() || l->at(0).data<d_array>()->size() == 0) {
@@ -231,6 +250,9 @@ namespace
 	value matrixtranspose_array(runtime& runtime, value::cref left)
 	{
 		auto l = left.data<d_array>();
+		if (!is_matrix(l)) {
+			return std::make_shared<d_array>();
+		}
 
 		// Check that neither rows nor first col is empty
 		if (l->size() == 0 || l->at(0).type() != t_array() || l->at(0).data<d_array>()->size() == 0) {
